@@ -30,11 +30,21 @@ package roothash
 
 //@ import "github.com/oasisprotocol/oasis-core/go/roothash/api/commitment"
 
+//@ ghost var GTimeoutCleared int
+//@ ghost var GTimeoutArmed int
+
 //@ func rearmRoundTimeout
 //@   props C10
-//@   modifies kvState()
+//@   modifies kvState(), GTimeoutCleared, GTimeoutArmed
 //@   trustframe
 //@   ensures err == nil || fresh(err)
+//@   ensures err == nil && prevTimeout != nextTimeout && prevTimeout != 0 ==> GTimeoutCleared == old(GTimeoutCleared) + 1
+//@   ensures err == nil && prevTimeout != nextTimeout && nextTimeout != 0 ==> GTimeoutArmed == old(GTimeoutArmed) + 1
+//@   ensures err == nil && (prevTimeout == nextTimeout || prevTimeout == 0) ==> GTimeoutCleared == old(GTimeoutCleared)
+//@   ensures err == nil && (prevTimeout == nextTimeout || nextTimeout == 0) ==> GTimeoutArmed == old(GTimeoutArmed)
+//@   precall state\.MutableState\)\.ClearRoundTimeout$ :: argIs(1, runtimeID) && argIs(2, prevTimeout)
+//@   precall state\.MutableState\)\.ScheduleRoundTimeout$ :: argIs(1, runtimeID) && argIs(2, nextTimeout)
+//@   note the queue of armed round timeouts holds, per runtime, exactly the timeout recorded in the runtime state: whenever the recorded timeout changes, the previously armed entry (at whatever height, past, present or future) is cleared and the new one armed (0 = TimeoutNever). A stale entry left behind fires for a runtime that may be suspended by then, and processRoundTimeouts returns that error from EndBlock (seed C10_f)
 //@   note writes only the round-timeout keys of the consensus state (frame assumed: the state accessors are outside the contracts)
 
 //@ func Application.failRound
